@@ -241,7 +241,7 @@ def main():
             "enable": "the harness workspaces (/verif/harness, /verif/harness-sim) depend on the /repo crates with features=[\"verif-hooks\"]; "
                       "no member of /repo's own workspace enables the feature",
             "baseline_off_cmd": "cd /repo && cargo nextest run --workspace --no-fail-fast --test-threads 8 --offline || cargo test --workspace --no-fail-fast --offline",
-            "source_commits": ["3d14cf9", "445d25e", "d0bd1e4", "a802df6", "a7b3111", "265652d"],
+            "source_commits": ["3d14cf9", "445d25e", "d0bd1e4", "a802df6", "a7b3111", "265652d", "cf50e9b"],
             "add_only": True,
         },
         "engines": [],
